@@ -66,6 +66,9 @@ func (e *Enc) builtin(f *frame, st *State, in *ssa.Call, b *ssa.Builtin, args []
 		return e.copyCall(f, st, in, args, resShape)
 	case "delete":
 		mt := args[0].Sh.T.Underlying().(*types.Map)
+		if e.fc != nil && e.fc.HasModifies && e.noObl == 0 {
+			e.frameCheckBase(f, st, args[0].T, mapPath(mt), in, "false")
+		}
 		e.mapDelete(st, args[0].T, mt, args[1])
 		return Val{Sh: resShape}
 	case "print", "println":
@@ -410,6 +413,7 @@ func (e *Enc) contractCall(f *frame, st *State, in *ssa.Call, callee *ssa.Functi
 		e.calleeFrame(f, st, in, callee, fc, args)
 		mods, _ := e.w.modSetOf(callee, in.Common(), in.Parent())
 		e.applyModifies(st, fc, callee, args, mods, nextAtCall)
+		e.preserveLocals(f, in, pre, st)
 	} else {
 		mods, top := e.w.modSetOf(callee, in.Common(), in.Parent())
 		e.havocHeaps(st, mods, top, "", false)
@@ -465,7 +469,7 @@ func (e *Enc) contractCall(f *frame, st *State, in *ssa.Call, callee *ssa.Functi
 	saveNE := e.nextEntry
 	e.nextEntry = nextAtCall
 	for _, c := range fc.Ensures {
-		e.assume(e.safeEvalHyp(c, penv))
+		e.assume(e.callSiteHyp(c, penv))
 	}
 	e.nextEntry = saveNE
 	e.usedContracts[name] = true
@@ -631,7 +635,7 @@ func (e *Enc) fnTypeCall(f *frame, st *State, in *ssa.Call, fc *FuncContract, fv
 		penv.vars["result0"] = res
 	}
 	for _, c := range fc.Ensures {
-		e.assume(e.safeEvalHyp(c, penv))
+		e.assume(e.callSiteHyp(c, penv))
 	}
 	e.usedContracts[fc.Name] = true
 	return res
@@ -868,7 +872,7 @@ func (e *Enc) implPost(f *frame, st, pre *State, in *ssa.Call, recv Val, args []
 		}
 		isT := fmt.Sprintf("(= %s %d)", recv.Sub[0].T, ic.tag)
 		for _, c := range ic.fc.Ensures {
-			e.assume(implies(isT, e.safeEvalHyp(c, penv)))
+			e.assume(implies(isT, e.callSiteHyp(c, penv)))
 		}
 		e.usedContracts[e.w.funcName(ic.fn)] = true
 	}
@@ -900,4 +904,22 @@ func (e *Enc) notAllowedNames(mods map[string]bool, top bool) []string {
 		}
 	}
 	return bad
+}
+
+// callSiteHyp: a callee post-condition as a hypothesis at a call site. A clause
+// that speaks about the callee's local variables (visible only inside its own
+// body, where the clause is proved) gives the caller nothing.
+func (e *Enc) callSiteHyp(c *Clause, penv *SpecEnv) (out string) {
+	mode := e.saveMode()
+	defer func() {
+		if r := recover(); r != nil {
+			e.restoreMode(mode)
+			if ce, ok := r.(contractErr); ok && (strings.Contains(ce.msg, "unknown identifier") || strings.Contains(ce.msg, "local(")) {
+				out = "true"
+				return
+			}
+			panic(r)
+		}
+	}()
+	return e.safeEvalHyp(c, penv)
 }
